@@ -16,7 +16,6 @@ import warnings
 
 from ..core import AnalysisError, dotted
 from ..grammar import Explorer, MOD_CLASSES
-from ..lexmodel import LexModel
 from ..pe import Hole
 from ..templates import (Gen, GeneratorRaised, STRUCT_CLASSES,
                          table_keys_with_nodes)
@@ -181,8 +180,7 @@ def check(chk, repo, tier):
            compiles(in_block(t, 1)) is None, "default template broken", TF)
 
     # ---- token kinds -----------------------------------------------------------
-    lm = LexModel(repo, gen.it)
-    token_kind_templates(chk, gen, lm, TF, tier)
+    token_kind_templates(chk, gen, None, TF, tier)
 
     # ---- (4) STRING transducer --------------------------------------------------
     string_transducer(chk, gen, TF, tier)
@@ -357,25 +355,39 @@ def function_parameters(chk, repo, gen, TF):
     """Parameter strings that parse.process_parameters can hand to the
     FunctionDef template: numeric by str.isnumeric, '*', or a sanitised
     name; one representative per character the sanitiser keeps."""
-    import re._parser as sre  # noqa: PLC0415
-    pp = repo.mod("parse").function("process_parameters")
-    kept = None
-    for n in ast.walk(pp):
-        if isinstance(n, ast.Call) and dotted(n.func) == "re.sub" \
-                and isinstance(n.args[0], ast.Constant):
-            kept = regex_kept_chars(n.args[0].value)
-    if kept is None:
+    # the parameter language, by interpreting the current
+    # parse.process_parameters on one-character parameters
+    pparse = gen.it.module("vyxal.parse")
+    try:
+        proc = pparse.get("process_parameters")
+    except KeyError:
         raise AnalysisError(
-            "anchor vanished: re.sub sanitiser in parse.process_parameters")
+            "anchor vanished: parse.process_parameters") from None
     enc = gen.it.module("vyxal.encoding")
     codepage = enc.get("codepage")
     cands = []
-    for ch in codepage:
-        if ch.isnumeric():
+    kept_odd = []
+    for ch in list(codepage) + ["é", "٣", "\u2028"]:
+        if ch in ":":
+            continue
+        gen.it.steps = 0
+        try:
+            _, params = proc([gen.token("GENERAL", "f:a" + ch + "b")])
+            _, single = proc([gen.token("GENERAL", "f:" + ch)])
+        except Exception as exc:  # noqa: BLE001
+            chk.ob("C02.generator-accepts", "process_parameters", False,
+                   f"process_parameters raised {exc} on parameter text "
+                   f"{'a' + ch + 'b'!r}", TF, witness=f"@f:a{ch}b|1;")
+            continue
+        if params and ch in params[0] and not (ch.isalnum() or ch == "_"):
+            kept_odd.append(ch)
+            cands.append(("name", params[0]))
+        if single and single[0] == ch and not ch.isascii():
             cands.append(("numeric", ch))
-    for ch in sorted(kept):
-        if ch in codepage and not (ch.isalnum() or ch == "_"):
-            cands.append(("name", "a" + ch + "b"))
+        elif single and single[0] == ch and ch.isdigit():
+            cands.append(("numeric", ch))
+    chk.unit("non-identifier characters process_parameters keeps",
+             "".join(kept_odd))
     cands += [("name", ""), ("name", "ab"), ("numeric", "12"), ("star", "*"),
               ("numeric", "0"), ("numeric", "00"), ("numeric", "02"),
               ("numeric", "007")]
